@@ -8,7 +8,7 @@ import json, os, re, subprocess, sys, time, glob
 sys.path.insert(0, os.path.dirname(__file__))
 import obligations as ob
 
-ROOT = "/verif"
+ROOT = os.path.dirname(os.path.dirname(os.path.abspath(__file__)))
 SIM = ROOT + "/sim"
 SEED = int(os.environ.get("VERIF_SEED", "20240601"))
 THREADS = os.environ.get("VERIF_THREADS", "16")
